@@ -872,5 +872,10 @@ impl RestorePlan {
 #[allow(missing_docs, unused_imports, dead_code, clippy::all, clippy::pedantic, clippy::nursery)]
 pub mod verif_hooks {
     use super::*;
-    pub use super::SparseRestore;
+
+    /// `opts` with `sparse = Some(SparseRestore::ByContent)` (the enum is not nameable from outside the crate).
+    pub fn with_sparse_by_content(mut opts: RestoreOptions) -> RestoreOptions {
+        opts.sparse = Some(SparseRestore::ByContent);
+        opts
+    }
 }
